@@ -383,7 +383,7 @@ def read_ndjson(path, limit=None):
 # ---------------------------------------------------------------------------------------------
 # Record oracle: one initial state per record line, invariant `Conforms` prints MISMATCH lines.
 
-def validate_records(spec_dir, module, cfg, work, recs_path, chunk=40000, timeout=1500, heap="6g", data_name="recs.ndjson", with_reason=False):
+def validate_records(spec_dir, module, cfg, work, recs_path, chunk=40000, timeout=1500, heap="6g", data_name="recs.ndjson", with_reason=False, extra_files=None):
     """Runs TLC over recs_path (ndjson) in chunks.  Returns (stats, mismatching records).
     Every record must have been examined (distinct states == records), else Infra."""
     with open(recs_path) as fh:
@@ -398,7 +398,7 @@ def validate_records(spec_dir, module, cfg, work, recs_path, chunk=40000, timeou
         p = os.path.join(work, "recs_%03d.ndjson" % n)
         with open(p, "w") as fh:
             fh.writelines(part)
-        r = run_tlc(spec_dir, module, cfg, os.path.join(work, "tlc_%s_%03d" % (module, n)), files={data_name: p},
+        r = run_tlc(spec_dir, module, cfg, os.path.join(work, "tlc_%s_%03d" % (module, n)), files=dict(extra_files or {}, **{data_name: p}),
                     timeout=timeout, heap=heap)
         if r["violated"]:
             raise Infra("record oracle failed: " + r["tail"][-1500:])
